@@ -66,12 +66,69 @@ type CallSpec struct {
 	Mod    bool `json:"mod,omitempty"` // pass WithStateModifier (observes, and bumps St.Mods)
 }
 
+// ListSpec: the interrupt configuration the way an application hands it to Compile: ONE list per kind
+// (the very same []string object) is given to WithInterruptBeforeNodes / WithInterruptAfterNodes of
+// every graph listed in Graphs, each graph picking out the names it contains. The lists are passed
+// as they stand: any order, names given twice, names of other graphs of the forest, names of no graph
+// at all (ids that no graph declares; 0 = "start", 1 = "end"). For the graphs listed, GraphSpec.Before /
+// GraphSpec.After are DERIVED (Case.Normalise): the sorted set of the graph's own nodes in the list.
+// The graphs not listed get fresh slices of their own Before / After, as do all graphs without a ListSpec.
+type ListSpec struct {
+	Graphs []int `json:"graphs"`
+	Before []int `json:"before,omitempty"`
+	After  []int `json:"after,omitempty"`
+}
+
 type Case struct {
 	Graphs []GraphSpec `json:"graphs"`
 	Input  int         `json:"input"`
 	Calls  []CallSpec  `json:"calls"` // used cyclically, call k uses Calls[k mod len]
 	NoID   bool        `json:"no_id,omitempty"`
 	Seed   uint64      `json:"seed,omitempty"` // only for delays jitter; not semantic
+	Lists  *ListSpec   `json:"lists,omitempty"`
+}
+
+// sharesLists: graph gi is handed the shared lists of c.Lists.
+func (c *Case) sharesLists(gi int) bool { return c.Lists != nil && has(c.Lists.Graphs, gi) }
+
+// PassedBefore / PassedAfter: the list handed to Compile for graph gi, as it stands.
+func (c *Case) PassedBefore(gi int) []int {
+	if c.sharesLists(gi) {
+		return c.Lists.Before
+	}
+	return c.Graphs[gi].Before
+}
+
+func (c *Case) PassedAfter(gi int) []int {
+	if c.sharesLists(gi) {
+		return c.Lists.After
+	}
+	return c.Graphs[gi].After
+}
+
+// ownSet: the sorted duplicate-free list of the nodes of g named in xs.
+func ownSet(g *GraphSpec, xs []int) []int {
+	var r []int
+	for _, x := range xs {
+		if g.node(x) != nil && !has(r, x) {
+			r = append(r, x)
+		}
+	}
+	sort.Ints(r)
+	return r
+}
+
+// Normalise derives Before / After of the graphs that are handed the shared lists.
+func (c *Case) Normalise() {
+	if c.Lists == nil {
+		return
+	}
+	for gi := range c.Graphs {
+		if c.sharesLists(gi) {
+			c.Graphs[gi].Before = ownSet(&c.Graphs[gi], c.Lists.Before)
+			c.Graphs[gi].After = ownSet(&c.Graphs[gi], c.Lists.After)
+		}
+	}
 }
 
 func key(id int) string {
@@ -115,6 +172,18 @@ func (c *Case) Validate() error {
 	}
 	if len(c.Calls) == 0 {
 		return fmt.Errorf("no calls")
+	}
+	if l := c.Lists; l != nil {
+		for _, gi := range l.Graphs {
+			if gi < 0 || gi >= len(c.Graphs) {
+				return fmt.Errorf("lists: graph index %d out of range", gi)
+			}
+		}
+		for _, id := range append(append([]int{}, l.Before...), l.After...) {
+			if id < 0 {
+				return fmt.Errorf("lists: negative id %d", id)
+			}
+		}
 	}
 	seen := map[int]bool{}
 	for gi, g := range c.Graphs {
